@@ -190,7 +190,11 @@ def default_override_expr(out, shift=1):
         ty = f["ty"]
         optional = ty.startswith("Option<")
         inner = ty[7:-1] if optional else ty
-        inits.append("%s: %s" % (f["name"], override_value(inner, optional, i + shift)))
+        e_ = override_value(inner, optional, i + shift)
+        if shift == 2 and inner in ("f32", "f64"):
+            # the second call hands over non-finite values as well: a helper passes on what it is given
+            e_ = ("Some(%s::INFINITY)" if optional else "%s::NEG_INFINITY") % inner
+        inits.append("%s: %s" % (f["name"], e_))
     return "m::OverrideConstants { %s }" % ", ".join(inits)
 
 
